@@ -178,6 +178,10 @@ type Verdict struct {
 	Features   []string `json:"features,omitempty"`
 	Known      string   `json:"known,omitempty"` // id of the known finding whose trigger matched
 	Evals      int      `json:"evals,omitempty"` // number of engine executions performed for this case
+	// Restart: the executor is left with stuck goroutines (a hang or a leak was observed);
+	// the parent starts a fresh executor for the next case so that the leftovers are not
+	// attributed to it.
+	Restart bool `json:"restart,omitempty"`
 }
 
 func (v Verdict) Bad() bool {
